@@ -54,7 +54,7 @@ CHECKS = {
          "readiness, honest context cancellation, NoMissedWakeup, and TeardownAndDestroy completion under fairness. "
          "TLC-simulated schedules are replayed on the real helpers through a gating CoreState proxy inside a synctest "
          "bubble (one underlying call / one delivery per scheduling decision); the recorded trace is judged by TLC "
-         "against the property-level spec TraceHelpers.tla. Watchers blocked across a re-creation of the resource (versions restart) are part of the model-checked and replayed programs; TeardownAndDestroy may surface the pending-finalizers conflict only after it saw the finalizers empty after its own teardown took effect. Three parties adding and removing their own finalizers after an earlier removal (ProgramsFins) are model-checked and replayed: every finalizer write must be exactly the requested change of the then-current set.",
+         "against the property-level spec TraceHelpers.tla. Watchers blocked across a re-creation of the resource (versions restart) are part of the model-checked and replayed programs; TeardownAndDestroy may surface the pending-finalizers conflict only after it saw the finalizers empty after its own teardown took effect. Three parties adding and removing their own finalizers after an earlier removal (ProgramsFins) are model-checked and replayed: every finalizer write must be exactly the requested change of the then-current set. The finalizer gate itself is exercised on real threads over a persistent-backed in-memory state with a slow backing store (an owner creating / tearing down / destroying, parties adding and removing their finalizers); the build-tag guarded hooks of the collection write every commit in lock order and TLC judges (TraceInmem) that no destroy commits on a stored value that carries a finalizer. Every error a helper returns needs its justification (a phase conflict only from a call that expects a phase).",
     note="Trusted: TLC, synctest, the gating proxy. Schedules replayed on the code are a TLC-simulated sample (quick 300, "
          "thorough 6000) of the interleavings that the model checks exhaustively; one resource, 3 actors.",
     technique="TLA+ helper step-machine model + TLC (safety and liveness); schedule replay through a gating proxy; TLC trace validation",
@@ -67,7 +67,7 @@ CHECKS = {
          "the judge TraceHelpers.tla checks on every real trace: written value = mutation applied to the then-current "
          "value, applied exactly once, returned object = written object, errors had no effect, owner/phase conflicts never "
          "turned into success, no call spins forever. "
-         "The token mutators also count their applications (not idempotent), so a mutation applied twice on the way to one successful write is rejected (applied-twice); a dedicated program menu (create / destroy racing Modify's create path) with an alternating scheduler bias is part of every run, and a directed schedule reproduces the open ABA finding. Idempotent mutators racing a teardown are part of the programs (a success must have found the expected phase). Two callers applying the same non-idempotent mutation (ProgramsSame: both compute the same result from the same base) are part of every run: two successes must be two applications.",
+         "The token mutators also count their applications (not idempotent), so a mutation applied twice on the way to one successful write is rejected (applied-twice); a dedicated program menu (create / destroy racing Modify's create path) with an alternating scheduler bias is part of every run, and a directed schedule reproduces the open ABA finding. Idempotent mutators racing a teardown are part of the programs (a success must have found the expected phase). Two callers applying the same non-idempotent mutation (ProgramsSame: both compute the same result from the same base) are part of every run: two successes must be two applications. Every error needs its justification (rule error-without-justification: a phase conflict only from a call that expects a phase and saw another one); this rule exposed defect 18 (Teardown racing Teardown), repaired in the code.",
     note="Trusted: as C03. Known finding C04/aba (stale update over a re-created incarnation with coinciding version) is "
          "listed in known_findings.json and modelled as the named deviation RecreateSameVersionABA.",
     technique="TLA+ helper step-machine model + TLC; schedule replay through a gating proxy; TLC trace validation",
@@ -81,7 +81,7 @@ CHECKS = {
          "synctest bubble in virtual time, and TLC-generated reconcile outcome sequences (ok/error/panic/requeue with and "
          "without error/skip) drive a probe QController on the real runtime; both traces are judged by TLC (TraceQueue, "
          "TraceBackoff: exact requeue intervals, randomised back-off envelope, reset on success). "
-         "Release / Requeue on an already released handle (the runtime's own deferred Release after Requeue) are part of the command sequences and must be no-ops. The queue's event loop carries build-tag guarded transition hooks: every transition it takes while the harness drivers and the repository's own test suites (queue stress tests, queue controllers of the conformance suites) run is judged by the same property-level judge (TraceQueue.tla).",
+         "Release / Requeue on an already released handle (the runtime's own deferred Release after Requeue) are part of the command sequences and must be no-ops. The queue's event loop carries build-tag guarded transition hooks: every transition it takes while the harness drivers and the repository's own test suites (queue stress tests, queue controllers of the conformance suites) run is judged by the same property-level judge (TraceQueue.tla). Reconciles that take (virtual) time before returning their outcome are driven: a requeue interval / back-off counts from the moment the reconcile returned. Two failing items with outcome sequences of their own are driven (a later deadline of one must not hold up the other).",
     note="Trusted: TLC, synctest virtual time, the verif facade (type aliases only). Order among simultaneously due items is "
          "not part of the property; randomised back-off is checked against its envelope only.",
     technique="TLA+ queue/back-off models + TLC; model-based replay in virtual time; TLC trace validation",
@@ -111,7 +111,7 @@ CHECKS = {
          "runtime adapters of a probe Controller / QController, with cached and uncached kinds, and the recorded outcome class "
          "and resulting value are judged by TLC (TraceAccess.tla). "
          "Output tracking (StartTrackingOutputs / CleanupOutputs) is modelled in OutTrack.tla (exact victims, foreign resources untouched, failed cleanup keeps the tracker, panics on misuse, restart discards the tracker), checked exhaustively, and random walks of it are replayed through a probe controller with every command judged by TraceOutTrack. "
-         "The change rate limit (WithChangeRateLimit) is a token bucket (RateLimit.tla, window bound checked by TLC); call sequences with idle gaps are issued in virtual time and the bucket is replayed per call: every mutating call, allowed or denied, takes one token and waits exactly as long as the policy says, reads take none. UpdateInputs must not alias the caller's slice. Every declaration's rows run forwards and backwards through one controller handle, and chained through UpdateInputs to the next declaration: what a call may do depends on the current declaration only.",
+         "The change rate limit (WithChangeRateLimit) is a token bucket (RateLimit.tla, window bound checked by TLC); call sequences with idle gaps are issued in virtual time and the bucket is replayed per call: every mutating call, allowed or denied, takes one token and waits exactly as long as the policy says, reads take none. UpdateInputs must not alias the caller's slice. Every declaration's rows run forwards and backwards through one controller handle, and chained through UpdateInputs to the next declaration: what a call may do depends on the current declaration only. Modify with phase options (any phase, tearing down) is part of the access matrix (the owner is enforced whatever the phase option). The output-tracking model has a SECOND controller with a tracking cycle of its own (variable tw): nothing one controller does - starting, failing, restarting, cleaning up - changes what the other has touched (the trackers are pooled objects); every other behaviour runs on one processor so that pooled trackers change hands.",
     note="Trusted: TLC, the error classification of harness/vh (an access denial is an unclassifiable error). One namespace; "
          "write rate limiting not exercised.",
     technique="TLA+ access matrix + TLC enumeration; exhaustive matrix replay through the real adapters; TLC trace validation",
@@ -125,7 +125,7 @@ CHECKS = {
          "current state of its inputs` and `every mapped change reached the primaries its mapper names`, on five controller "
          "configurations. TLC-simulated schedules (writes, batch flushes, reconcile releases, late starts, failing reconciles) "
          "drive the real runtime with probe controllers in a synctest bubble through an interposing CoreState that holds and "
-         "merges aggregated watch batches; what every reconcile read and a final quiet point are judged by TLC (TraceRuntime). The delivery goroutine of the runtime is parked at a build-tag guarded scheduler gate and released by the schedule; batches that carry nothing (bookmarks) are modelled and injected. Directed real-thread schedules race event delivery against a rejected and an accepted registration (no crash, no wake-up lost, lookups of different ids of one kind do not disturb each other).",
+         "merges aggregated watch batches; what every reconcile read and a final quiet point are judged by TLC (TraceRuntime). The delivery goroutine of the runtime is parked at a build-tag guarded scheduler gate and released by the schedule; batches that carry nothing (bookmarks) are modelled and injected. Directed real-thread schedules race event delivery against a rejected and an accepted registration (no crash, no wake-up lost, lookups of different ids of one kind do not disturb each other). Configuration H: a queue controller with two by-ID inputs of one kind that differ in their input kind (mapped / mapped-destroy-ready).",
     note="Trusted: TLC, synctest quiescence (quiet = nothing recorded during 3 virtual minutes after everything was released). "
          "Dedup/delivery goroutine steps run eagerly on the code; their interleavings are exhaustive only in the model.",
     technique="TLA+ pipeline model + TLC; schedule replay on the real runtime in a synctest bubble; TLC trace validation",
@@ -138,7 +138,7 @@ CHECKS = {
          "current contents, contexts are cancelled iff the resource is/was torn down, removed or absent (TraceCache). "
          "Black box: runtime schedules with cached kinds; cached reads after every step must be version-monotone per "
          "incarnation, controllers reading through the cache must not lose wake-ups, and cached = uncached at the quiet point. "
-         "A filtered List running concurrently with one cache mutation (a hook in the cached resources' Metadata() lets the mutation land in the middle of the scan) must return the contents at one instant. Teardown-bound contexts handed out by the runtime for cached resources are tracked (cancelled exactly when the resource is torn down, removed or absent), including removal and re-creation within one batch; pipeline hook traces of the runtimes are judged by TracePipe.tla. Label / ID filtered cached lists at quiet: the selector algebra's table (Selector.tla, emitted by TLC) is evaluated by the runtime cache's List and judged against the algebra (TraceSelector).",
+         "A filtered List running concurrently with one cache mutation (a hook in the cached resources' Metadata() lets the mutation land in the middle of the scan) must return the contents at one instant. Teardown-bound contexts handed out by the runtime for cached resources are tracked (cancelled exactly when the resource is torn down, removed or absent), including removal and re-creation within one batch; pipeline hook traces of the runtimes are judged by TracePipe.tla. Label / ID filtered cached lists at quiet: the selector algebra's table (Selector.tla, emitted by TLC) is evaluated by the runtime cache's List and judged against the algebra (TraceSelector). Cached reads are also made through a controller's state adapter (controller.Reader.Get), and held batches are flushed partially (events committed together reach the runtime in separate batches).",
     note="Trusted: as C05.",
     technique="TLA+ cache model + pipeline model, TLC; white-box and black-box replay; TLC trace validation",
     ref="5.15"),
@@ -151,7 +151,7 @@ CHECKS = {
          "returned; restart sequences (error / panic / reset) of a controller, a run hook and a task judged against the "
          "back-off envelope with a fresh reconcile after every restart (TraceBackoff). "
          "Failing queue items of a QController (error, panic, requeue with and without interval, including RequeueError(err, 0)) are driven and judged against the back-off envelope with the nothing-lost rule (stage shared with C09 b), including two failing items with outcome sequences of their own (a later retry deadline of one must not hold up the other). "
-         "pkg/task is specified in TaskRunner.tla (registry / live goroutines under StartTask, StopTask, Reconcile, Stop, bodies finishing, failing, panicking) and random walks are replayed on a real task.Runner with the set of executing task instances judged after every command; the output-tracking stage (panic between StartTrackingOutputs and CleanupOutputs) is shared with C08. Failures of controllers, queue items and run hooks alternate between plain errors and errors that wrap context.DeadlineExceeded / context.Canceled while the runtime is alive; long streaks of consecutive failures are part of the restart stage.",
+         "pkg/task is specified in TaskRunner.tla (registry / live goroutines under StartTask, StopTask, Reconcile, Stop, bodies finishing, failing, panicking) and random walks are replayed on a real task.Runner with the set of executing task instances judged after every command; the output-tracking stage (panic between StartTrackingOutputs and CleanupOutputs) is shared with C08. Failures of controllers, queue items and run hooks alternate between plain errors and errors that wrap context.DeadlineExceeded / context.Canceled while the runtime is alive; long streaks of consecutive failures are part of the restart stage. Goroutine leaks are counted by stack content (goroutines with a frame of the repository's packages), not by the process-wide goroutine count.",
     note="Trusted: as C05; goroutine leak measured by process goroutine count inside the bubble.",
     technique="TLA+ pipeline/back-off models + TLC; fault-schedule replay in virtual time; TLC trace validation",
     ref="5.16"),
@@ -163,7 +163,7 @@ CHECKS = {
          "running inputs, no orphan except held by a foreign finalizer, torn-down inputs released`. The real transform / "
          "qtransform controllers (6 option configurations) run on the real runtime in a synctest bubble while TLC-generated "
          "external histories are executed, optionally with the transform held in flight or failing transiently; the quiet "
-         "snapshot is judged by TLC (TraceLifecycle.tla, JUDGE=C06). Skip mode (the transform asks to skip every reconcile from some point on) and configurations with destroy.Controller for the input type are driven as well. Configurations with an optional mapping (MapMetadataOptionalFunc turning None for an input that was mapped) and directed ignore-teardown scenarios are part of every run.",
+         "snapshot is judged by TLC (TraceLifecycle.tla, JUDGE=C06). Skip mode (the transform asks to skip every reconcile from some point on) and configurations with destroy.Controller for the input type are driven as well. Configurations with an optional mapping (MapMetadataOptionalFunc turning None for an input that was mapped) and directed ignore-teardown scenarios are part of every run. Secondary input kinds read by the transform function (qtransform WithExtraMappedInput, transform WithExtraInputs) are modelled (LifecycleQT / LifecycleT with Extra: read and write of the output are separate steps, a change of the secondary queues a map job) and driven (image = 10 * input + secondary); configurations with inputs and outputs in ONE namespace are part of every run.",
     note="Trusted: TLC, synctest quiescence, C05 (notification fairness). Known finding (ignore-teardown options) listed in "
          "known_findings.json and reproduced by the model config MC_LifecycleQT_ignore.",
     technique="TLA+ controller lifecycle models + TLC; history replay on the real controllers; TLC trace validation",
@@ -174,7 +174,7 @@ CHECKS = {
          "everybody and the store: after EVERY write, an output owned by the controller exists only while its input exists and "
          "carries the controller's finalizer, and an output is destroyed only from tearing-down phase with no finalizers "
          "(TraceLifecycle.tla, JUDGE=C07); the models check FinBeforeOut as an invariant. "
-         "An eighth configuration combines two cleanup handlers (cleanup.Combine) over two groups of dependents, a ninth uses WithIgnoreTeardownWhile. Configurations with destroy.Controller for the input type and skip mode are driven as well.",
+         "An eighth configuration combines two cleanup handlers (cleanup.Combine) over two groups of dependents, a ninth uses WithIgnoreTeardownWhile. Configurations with destroy.Controller for the input type and skip mode are driven as well. The ordering rests on the store refusing to remove a resource that carries a finalizer: that gate is exercised on real threads over a persistent-backed state (stage shared with C03, hook traces judged by TraceInmem). Secondary-input and same-namespace configurations as in C06.",
     note="Trusted: the recording proxy serialises writes around the store call (commit order). Cleanup controllers "
          "(cleanup.NewController + RemoveOutputs) are modelled (LifecycleCL.tla) and driven as configuration CL; the controller's own "
          "writes can be parked and stepped so external operations land between any two of them. Known finding for the ignore-teardown options is listed.",
@@ -192,7 +192,7 @@ CHECKS = {
          "memory = disk = specification, failed writes invisible to memory, disk and watchers, state after restart = "
          "acknowledged prefix (+ the in-flight operation at most), all fields and creation time intact, later operations "
          "continue from it. "
-         "The load is modelled as LoadStart / LoadItem* / LoadOK|LoadFail with a concurrent reader (ReadsSeeDisk); restarts whose first access is made by two clients at once (client A parked inside Load after 0 or 1 injected resources, client B issuing get / list / create) are driven and judged (raceread). Several clients writing at once to separate namespaces through one file and one marshaler stacking are judged per namespace after a reopen; hook traces of the driver show every rejected write from inside the collection. Crashes are also real: the script runs in a child process against a real bbolt file with real syncs and is killed with SIGKILL at random instants; faults also happen inside bbolt (database file at its maximum size).",
+         "The load is modelled as LoadStart / LoadItem* / LoadOK|LoadFail with a concurrent reader (ReadsSeeDisk); restarts whose first access is made by two clients at once (client A parked inside Load after 0 or 1 injected resources, client B issuing get / list / create) are driven and judged (raceread). Several clients writing at once to separate namespaces through one file and one marshaler stacking are judged per namespace after a reopen; hook traces of the driver show every rejected write from inside the collection. Crashes are also real: the script runs in a child process against a real bbolt file with real syncs and is killed with SIGKILL at random instants; faults also happen inside bbolt (database file at its maximum size). Injected load failures strike after k = 0..3 resources were handed over (the next access has to load cleanly).",
     note="Trusted: TLC, bbolt transaction atomicity; crashes are in-process (state dropped, file closed/re-opened) at the "
          "decorator's crash points; SIGKILL inside bbolt transactions is not driven.",
     technique="TLA+ persistence model + TLC; fault/crash-annotated replay on inmem+bbolt; TLC trace validation",
@@ -209,7 +209,7 @@ CHECKS = {
          "event for event, stickiness, and agreement of the direct side with the sequential spec. Malformed.tla enumerates the "
          "wire-level request lattice (~350 shapes); a raw client sends every shape to a server in a child process; TLC judges "
          "`process alive` and `malformed => error status`. "
-         "The request lattice includes requests without any options message; multi-term label / ID selectors evaluated through the wire must select what the selector algebra selects (selector stage shared with C14, remote sites).",
+         "The request lattice includes requests without any options message; multi-term label / ID selectors evaluated through the wire must select what the selector algebra selects (selector stage shared with C14, remote sites). Kind watches with BOTH bootstrap options (contents and bookmark), early and late, single and aggregated, are compared between the direct and the remote state.",
     note="Trusted: TLC, gRPC. Sequential sequences only (no racing calls). Watch streams are compared after the remote side "
          "caught up (5 s budget).",
     technique="TLA+ code tables / request lattice + TLC; differential lock-step replay over real gRPC; child-process fault probe; TLC trace validation",
@@ -238,7 +238,7 @@ CHECKS = {
          "every slot. TLC-simulated sequences run on the real KeyStorage with freshly generated x25519 PGP key pairs, the "
          "adversary editing the MarshalBinary output through the public protobuf message; TLC replays every step on the model "
          "and judges success/failure of every API call and equality of the recovered master key (TraceKeyStorage.tla). "
-         "The integrity tag is also stripped, truncated and zeroed. The serialized form is re-loaded into the same KeyStorage value in every second behaviour; refused calls (unusable public key) must have no effect.",
+         "The integrity tag is also stripped, truncated and zeroed. The serialized form is re-loaded into the same KeyStorage value in every second behaviour; refused calls (unusable public key) must have no effect. Calls made at the same time on one KeyStorage (real threads): two additions of the same new slot with different key pairs next to commuting calls, then a sequential epilogue; the group is written to the trace successes first (for mutually exclusive calls the only order a sequential execution can have had) and judged by the same TraceKeyStorage.",
     note="Trusted: TLC, gopenpgp. Composite adversarial edits without a retrieval in between (e.g. renaming a slot = copy + "
          "remove, which the HMAC cannot see because slot ids are not hashed) are outside the property's single-corruption quantifier.",
     technique="TLA+ key storage model with adversary + TLC; model-based replay on the real KeyStorage; TLC trace validation",
@@ -254,7 +254,7 @@ CHECKS = {
          "conversion) - and TLC judges each site's matched set against the algebra (TraceSelector.tla); ID-regexp selectors: "
          "all sites must agree with regexp.MatchString. Filtered kind watches as exact change logs of the filtered set are "
          "model-checked (WatchLog.tla rewrite rule) and replayed/judged as in C02. "
-         "Selector.tla enumerates every ordered pair of representative terms as AND-row and as OR-row plus inverted/plain triples; the quick tier keeps all mixed-inversion pairs. Selectors are also checked across the re-establishment of remote watches (real gRPC connection, server restarted).",
+         "Selector.tla enumerates every ordered pair of representative terms as AND-row and as OR-row plus inverted/plain triples; the quick tier keeps all mixed-inversion pairs. Selectors are also checked across the re-establishment of remote watches (real gRPC connection, server restarted). Filtered subscribers also run on real threads (bursts consumed as one batch by a lagging watcher), judged at the collection's linearization points.",
     note="Trusted: TLC, Go's regexp engine, the curated string tables (10 strings).",
     technique="TLA+ selector algebra + TLC truth-table enumeration; table replay at every selector site; TLC trace validation",
     ref="5.14"),
@@ -269,7 +269,7 @@ CHECKS = {
          "the in-memory state, the gRPC stack and the runtime ResourceCache fed from a kind watch exactly as the runtime does; "
          "after every step the store contents (read independently), a watch-fed replica and every held object are logged and "
          "TLC judges that a mutation changed only the mutated handle (TraceAlias.tla). "
-         "Filtered lists (label query, ID query) are part of the programs on every stack. Resources with several finalizers and twin holders of one lineage (append-in-place vs copy-on-write) are part of the programs; hook traces of the in-memory collection show any change of a stored object from inside.",
+         "Filtered lists (label query, ID query) are part of the programs on every stack. Resources with several finalizers and twin holders of one lineage (append-in-place vs copy-on-write) are part of the programs; hook traces of the in-memory collection show any change of a stored object from inside. Two more stacks run the same programs on typed resources whose spec is a protobuf message (protobuf.ResourceSpec, base value the empty message).",
     note="Trusted: TLC, the canonical rendering of resources in harness/c19. Watch-delivered event objects are never mutated "
          "(no isolation promised for them).",
     technique="TLA+ heap/copy-on-write model + TLC; program replay on three stacks; TLC trace validation",
@@ -285,7 +285,7 @@ CHECKS = {
          "text forms, and decodes every truncation and four substitutions per byte of every stacking's encoding plus a wrong "
          "key, each under recover; TLC judges the outcome classes (TraceCodec.tla). Not claimed: totality over ARBITRARY byte "
          "strings (no state machine behind it; that is fuzzing territory). "
-         "Records are independent values: every shape is encoded with one long-lived marshaler per stacking, the encodings are kept and decoded only after all later encodings were produced. Metadata strings include the scalars a text format gives a meaning of its own to (YAML null / boolean / number spellings, structural characters, blanks).",
+         "Records are independent values: every shape is encoded with one long-lived marshaler per stacking, the encodings are kept and decoded only after all later encodings were produced. Metadata strings include the scalars a text format gives a meaning of its own to (YAML null / boolean / number spellings, structural characters, blanks). Generic resources of an unregistered type (spec with a YAML representation, or YAML and protobuf bytes) are among the shapes sent through every stacking of the store marshalers.",
     note="Trusted: AES-GCM, zstd, TLC. Bounded neighbourhoods only. Known finding: metadata YAML truncates sub-second timestamps.",
     technique="TLA+ codec case analysis + TLC enumeration of vectors; bounded-exhaustive tamper replay; TLC trace validation",
     ref="5.18"),
